@@ -16,6 +16,9 @@ import time
 VERIF = os.path.dirname(os.path.dirname(os.path.abspath(__file__)))
 CACHE = os.path.join(VERIF, ".cache")
 DRIVER = os.path.join(VERIF, "mirfacts", "target", "release", "mirfacts")
+# VERIF_TGT_SLOT=<k>: use a separate cargo target directory (and lock) per slot, so that the self-test tools can analyse
+# several scratch worktrees at once; the fact files themselves are keyed by source hash and shared.
+SLOT = ("-" + os.environ["VERIF_TGT_SLOT"]) if os.environ.get("VERIF_TGT_SLOT") else ""
 
 CONFIGS = {
     "default": ["-p", "clvmr"],
@@ -85,7 +88,7 @@ def ensure_driver():
 def _build(config, repo, outdir):
     """Run cargo check with the driver for one config; facts land in outdir."""
     ensure_driver()
-    tgt = os.path.join(CACHE, "tgt", config)
+    tgt = os.path.join(CACHE, "tgt", config + SLOT)
     os.makedirs(tgt, exist_ok=True)
     # cargo's freshness cache would skip the wrapper for an unchanged member:
     # drop the members' fingerprints so the driver always runs.
@@ -174,7 +177,7 @@ def ensure(configs, repo=None):
     res = {}
     for config in configs:
         outdir = os.path.join(base, config)
-        lock = os.path.join(CACHE, f"lock-{config}")
+        lock = os.path.join(CACHE, f"lock-{config}{SLOT}")
         with open(lock, "w") as lf:
             fcntl.flock(lf, fcntl.LOCK_EX)
             try:
@@ -188,13 +191,13 @@ def ensure(configs, repo=None):
 
 
 def _gc(keep):
-    """Keep the fact cache small: at most 6 source states."""
+    """Keep the fact cache small: at most 13 source states (a few MB each)."""
     root = os.path.join(CACHE, "facts")
     try:
         ents = [os.path.join(root, e) for e in os.listdir(root)]
         ents = [e for e in ents if os.path.isdir(e) and e != keep]
         ents.sort(key=lambda e: os.path.getmtime(e))
-        for e in ents[:-5]:
+        for e in ents[:-12]:
             shutil.rmtree(e, ignore_errors=True)
     except OSError:
         pass
